@@ -415,6 +415,7 @@ class Polynomial:
         if not self.params_set:
             self.degree = degree
             self.raw = raw
+            self.params_set = True
         return self.eval(x)
 
     def eval(self, x):
